@@ -124,6 +124,8 @@ func c10Churn(k int) {
 }
 
 var c10FlagSets = []json.ParseFlags{0, json.ZeroCopy, json.DontCopyString, json.DontCopyNumber, json.DontCopyRawMessage,
+	// the number flags choose the dynamic type of numbers in interfaces; none of them is a zero-copy flag
+	json.UseNumber | json.UseInt64, json.UseNumber | json.UseUint64, json.UseNumber | json.UseBigInt | json.UseInt64 | json.UseUint64, json.UseBigInt, json.UseInt64 | json.UseUint64,
 	json.UseNumber, json.DontMatchCaseInsensitiveStructFields | json.DisallowUnknownFields}
 
 // quoted variants put where a base document has a string value: ",string" fields parse them as numbers
